@@ -187,6 +187,14 @@ def shard(p):
         # the evaluator or the database remembers from one evaluation to the next is asked the most confusable question next
         by_text = sorted(range(len(queries)), key=lambda i: (queries[i][0].lower(), queries[i][0]))
         schedule += [(qi, j % 2 == 0) for j, qi in enumerate(by_text)] + [(qi, j % 2 == 1) for j, qi in enumerate(reversed(by_text))]
+        # the same phrases in other letter cases, in particular the words and/or/not in both cases (the search library gives the
+        # upper-case forms a meaning of their own): near-duplicates that anything keyed on a case-folded phrase confuses (seed C18-f)
+        for _ in range(30):
+            a, b = rng.choice(plain + unitf), rng.choice(plain + unitf)
+            wa, wb = a.split(" ")[-1], b.split(" ")[0]
+            opw = rng.choice(["and", "or", "not"])
+            for text in ("%s %s %s" % (wa, opw, wb), "%s %s %s" % (wa, opw.upper(), wb), "%s %s %s * 2" % (a, opw.upper(), wb), "%s %s %s * 2" % (a, opw, wb), a.upper(), a.title()):
+                queries.append((text, None))
         # sandwiches A, E, A: the same query immediately before and after a *disturber* - a phrase the database does not know, or
         # one the search library refuses outright (a dangling upper-case OR / NOT), or an empty-handed cast. A lookup memo that is
         # left half-updated by a failing lookup answers the second A differently (seed C18-d)
@@ -202,6 +210,26 @@ def shard(p):
         reps = []
         for i in range(0, len(reqs), 2000):
             reps += d.call_many(reqs[i:i + 2000], timeout=600)
+        # isolation: every distinct query once more on a SECOND database object, in the opposite order of the sorted pass - whatever
+        # one evaluation leaves behind for the next depends on the order, the result a query has in isolation does not
+        iso = {}
+        with Driver(p["bin"]) as d2:
+            order2 = sorted(range(len(queries)), key=lambda i: (queries[i][0].lower(), queries[i][0]), reverse=True)
+            reps2 = []
+            for i in range(0, len(order2), 2000):
+                reps2 += d2.call_many([{"op": "query", "q": queries[qi][0], "describe": True} for qi in order2[i:i + 2000]], timeout=600)
+            for qi, r2 in zip(order2, reps2):
+                iso[qi] = json.dumps([("ok", it["ok"]["v"], it["ok"]["u"]) if "ok" in it else ("err", it["err"]["msg"], it["err"]["start"], it["err"]["end"]) for it in (r2.get("items") or [])])
+            # ... and a few of them on a database object of their own
+            fresh = rng.sample(range(len(queries)), min(10, len(queries)))
+            for qi in fresh:
+                d2.call({"op": "db", "mode": "in_memory"}, timeout=600)
+                r2 = d2.call({"op": "query", "q": queries[qi][0], "describe": True}, timeout=600)
+                s2 = json.dumps([("ok", it["ok"]["v"], it["ok"]["u"]) if "ok" in it else ("err", it["err"]["msg"], it["err"]["start"], it["err"]["end"]) for it in (r2.get("items") or [])])
+                acc.count("queries_on_a_database_of_their_own")
+                if s2 != iso[qi]:
+                    acc.violate("c18:answer-differs-from-isolation", "%r gives %s on a database object of its own but %s on one that answered other queries before" % (queries[qi][0], s2[:300], iso[qi][:300]),
+                                {"query": queries[qi][0], "describe": True, "build": p["kind"]})
         first = {}
         for pos, ((qi, flag), rep) in enumerate(zip(schedule, reps)):
             text, tree = queries[qi]
@@ -236,6 +264,11 @@ def shard(p):
             sig = json.dumps(values)
             if key not in first:
                 first[key] = (sig, flag, pos)
+                acc.count("compared_with_a_second_database_object_asked_in_another_order")
+                if iso.get(qi) is not None and iso[qi] != sig:
+                    acc.violate("c18:answer-differs-from-isolation", "%r gives %s here (position %d, after %r) but %s on a second database object that was asked in another order" % (
+                        text, values, pos, [queries[q_][0] for q_, _f in schedule[max(0, pos - 2):pos]], iso[qi][:300]), case)
+                    continue
             elif first[key][0] != sig:
                 acc.violate("c18:answer-changed:" + ("mode" if first[key][1] != flag else "history"),
                             "%r gave %s at position %d (describe=%s) but %s at position %d (describe=%s)" % (text, values, pos, flag, first[key][0], first[key][2], first[key][1]), case)
